@@ -76,12 +76,42 @@ Proof.
   destruct H as [<-|[<-|[<-|[]]]]; lia.
 Qed.
 
+(* thread 5 submits an asynchronous item, worker 6 locks the lane, thread 7 calls dispatch_async_and_wait_f and parks
+   behind the item; the worker runs both items itself, clears dsc_func, signals 7 and gives the lane back; 7 returns
+   without ever starting its item *)
+Definition e_loadt : gst -> event := fun s => mkEv DV_LOAD MO_SEQ_CST 0 OFF_T 8 (tail_value s) (tail_value s) 1.
+Definition schedR1 : list (Z * (gst -> event)) :=
+  [ (5, e_call 4); (5, e_xchgt 3000); (5, e_storeh 3000); (5, e_loadt); (5, e_loadq); (5, e_casq 3 (fun v => b_wakeup 3 v 0));
+    (5, e_tau 0); (5, e_ret);
+    (6, e_loadq); (6, e_casq 2 (b_lock 6 7));
+    (7, e_call 3); (7, e_loadq); (7, e_loadq); (7, e_loadq); (7, e_xchgt 4000); (7, e_tau 0); (7, e_sub 7); (7, e_eload 7); (7, e_fwait 7);
+    (6, e_tau 1); (6, e_loadh); (6, e_loadq); (6, e_storeh 4000); (6, e_begin 0); (6, e_end 0);
+    (6, e_loadq); (6, e_storeh 0); (6, e_cast 1); (6, e_begin 7) ].
+Definition schedR2 : list (Z * (gst -> event)) :=
+  [ (6, e_end 7); (6, e_add 7); (6, e_fwake 7); (6, e_tau 0); (6, e_loadq); (6, e_casq 3 (b_dunlock OWN));
+    (7, e_fret 7); (7, e_eload 7); (7, e_ret) ].
+
 Lemma after_reach l s : Forall (fun x => In (fst x) [5; 6; 7]) l -> after l = Some s -> reach s.
 Proof.
   intros V H. apply (grunf_reach l init_state s); [apply reach_init; reflexivity|apply sched_valid; exact V|exact H].
 Qed.
 
 Ltac in567 := repeat (constructor; [cbn; tauto|]); constructor.
+
+Lemma nonvacuous_remote :
+  (exists s, reach s /\ holder s = Some 6 /\ running s = Some 6 /\ pcs s 6 = W_incall OWN 0 7 /\ slp s 7 = Sleeping /\
+             ph s 7 = PhPopR 6 /\ runs s 7 = 1 /\ ist s 7 = IRun) /\
+  (exists s, reach s /\ holder s = None /\ st s = init_word /\ runs s 7 = 1 /\ ist s 7 = IFin /\ remote s 7 = true /\
+             pcs s 7 = Idle /\ pcs s 6 = Idle /\ early_ret s = false).
+Proof.
+  split.
+  - destruct (after schedR1) as [s|] eqn:E; [|vm_compute in E; discriminate E].
+    exists s. split; [apply (after_reach schedR1); [unfold schedR1; in567|exact E]|].
+    vm_compute in E. injection E as <-. vm_compute. repeat split.
+  - destruct (after (schedR1 ++ schedR2)) as [s|] eqn:E; [|vm_compute in E; discriminate E].
+    exists s. split; [apply (after_reach (schedR1 ++ schedR2)); [unfold schedR1, schedR2; cbn [app]; in567|exact E]|].
+    vm_compute in E. injection E as <-. vm_compute. repeat split.
+Qed.
 
 Lemma nonvacuous :
   (exists s, reach s /\ holder s = Some 6 /\ Z.land (st s) OWNER_MASK = 6 /\ slp s 6 = Sleeping /\ ph s 6 = PhSig 5 /\
